@@ -23,7 +23,7 @@ REQUIRED = [
     "request_object_served_only_if", "request_object_burned_by_any_fetch", "leg_request_object_carries_its_nonce", "fact_request_object_endpoints",
     "policy_load_exact", "s2s_scope_comes_from_a_policy_file", "policy_load_error_kinds", "fact_policy_loader",
     "fact_jar_parse_shape", "fact_jar_validate_shape", "fact_params_get", "fact_authorize_dispatch", "fact_token_dispatch", "fact_oauth_names",
-    "dpop_valid_only_if", "dpop_not_valid_leaves_state", "dpop_proof_accepted_at_most_once", "dpop_binding_end_to_end", "fact_dpop_validate_shape", "fact_once_only_store_keys",
+    "dpop_valid_only_if", "dpop_not_valid_leaves_state", "dpop_proof_accepted_at_most_once", "dpop_binding_end_to_end", "fact_dpop_validate_shape", "fact_once_only_store_keys", "fact_get_store_shares_database_mutex",
     "fact_verifyvp_args", "fact_audience_exact", "fact_deciding_conditions", "fact_windows", "fact_store_prefixes_distinct", "fact_introspection_fields", "fact_access_token_init", "fact_introspection_init",
 ]
 
